@@ -80,6 +80,9 @@ class Numbers(Sub):
                     ok = isinstance(out[1], int) and out[1] == want
                     if not ok and isinstance(out[1], float):
                         ok = Fraction(out[1]) == want     # an exactly equal float is the same number
+                elif kind == 'pct' and form != '1+%s':
+                    # n% spells n/100: the correctly rounded quotient (n*0.01 is one ulp off for 57%, 35%, ...)
+                    ok = out[1] == want.numerator / want.denominator
                 else:
                     ok = ulp_close(out[1], want) or abs(out[1] - float(want)) <= 2 * math.ulp(float(want))
             if not ok:
@@ -110,12 +113,12 @@ class Numbers(Sub):
                         out.append(f)
         elif case[0] == 'pct':
             for n in range(case[1] * 100, case[1] * 100 + 100):
-                f = self.one(env, '%d%%' % n, Fraction(n, 100), 'flt')
+                f = self.one(env, '%d%%' % n, Fraction(n, 100), 'pct')
                 if f:
                     out.append(f)
             if case[1] == 0:
                 for t in ('007%', '00%', '100%', '2500%'):
-                    f = self.one(env, t, Fraction(int(t[:-1]), 100), 'flt')
+                    f = self.one(env, t, Fraction(int(t[:-1]), 100), 'pct')
                     if f:
                         out.append(f)
         elif case[0] == 'pow':
